@@ -570,6 +570,65 @@ fn perm_subs(run: &Arc<Run>) -> Vec<Arc<dyn Sub>> {
             ));
         }
     }
+    // ---- states with ONE non-zero canonical word chosen so that a single matrix coefficient times the word lands
+    // just above the modulus or just below 2^64 (where the final reduction of the fast path must still produce a
+    // canonical word): w in {ceil(p/c) + d, floor((2^64 - 1)/c) + d : c = 1..=64, d = -1, 0, 1}, every position
+    {
+        let mut words: Vec<u64> = vec![];
+        for c in 1..=64u128 {
+            for base in [(P64 + c - 1) / c, ((1u128 << 64) - 1) / c] {
+                for d in [-1i128, 0, 1] {
+                    let w = base as i128 + d;
+                    if w > 0 && (w as u128) < P64 {
+                        words.push(w as u64);
+                    }
+                }
+            }
+        }
+        words.sort();
+        words.dedup();
+        let nw = words.len() as u64;
+        for (width, name) in [(12usize, "mds12x12.fast_path.single_word"), (8, "mds8x8.fast_path.single_word")] {
+            let words = words.clone();
+            subs.push(sub_t(
+                name,
+                width as u64,
+                60,
+                true,
+                move |pos, out| {
+                    let mds = if width == 12 { RP64.mds.clone() } else { RPJ.mds.clone() };
+                    for w in words.iter() {
+                        let mut els = vec![B64::ZERO; width];
+                        els[pos as usize] = B64::from_mont(*w);
+                        let st: Vec<u128> = els.iter().map(|e| e.as_int() as u128).collect();
+                        let want = refhash::matvec(&mds, &st, P64);
+                        let got: Vec<B64> = if width == 12 {
+                            let mut real: [B64; 12] = core::array::from_fn(|i| els[i]);
+                            crypto::verif_hooks::mds_multiply_12x12(&mut real);
+                            real.to_vec()
+                        } else {
+                            let mut real: [B64; 8] = core::array::from_fn(|i| els[i]);
+                            crypto::verif_hooks::mds_multiply_8x8(&mut real);
+                            real.to_vec()
+                        };
+                        for i in 0..width {
+                            if got[i].as_int() as u128 != want[i] {
+                                out.violation(format!("mds {width}x{width}: frequency-domain product differs from the plain matrix product (single-word state)"), json!({"position": pos, "internal_word": format!("{:#x}", w), "row": i}));
+                                break;
+                            }
+                            if got[i].inner() as u128 >= P64 || got[i] != B64::new(want[i] as u64) {
+                                out.violation(format!("mds {width}x{width}: the fast path returns an element that is not in canonical form (its word is >= p, so == with the canonical element of the same value fails)"), json!({"position": pos, "internal_word": format!("{:#x}", w), "row": i, "got_word": format!("{:#x}", got[i].inner())}));
+                                break;
+                            }
+                        }
+                    }
+                    out.evals(nw - 1);
+                    out.nontrivial_n(nw);
+                },
+                move |pos| json!({"position": pos, "words": "ceil(p/c)+d, floor((2^64-1)/c)+d for c = 1..=64, d = -1,0,1"}),
+            ));
+        }
+    }
     // ---- full permutation against the reference round function
     let nperm: u64 = if thorough { 200_000 } else { 12_000 };
     for which in 0..3u64 {
